@@ -1429,3 +1429,28 @@ impl IdlArcSqlite {
     }
     */
 }
+
+#[cfg(feature = "verif-hooks")]
+pub mod verif {
+    use super::*;
+
+    /// Raw sqlite dump of a two-column table below the caches of a read transaction.
+    pub(crate) fn raw_table(
+        t: &IdlArcSqliteReadTransaction<'_>,
+        table: &str,
+        kcol: &str,
+        vcol: &str,
+    ) -> Result<Vec<(String, Vec<u8>)>, OperationError> {
+        crate::be::idl_sqlite::verif::raw_table(&t.db, table, kcol, vcol)
+    }
+
+    /// The id list of one index key as searches see it (through the idl cache).
+    pub(crate) fn cached_idl(
+        t: &mut IdlArcSqliteReadTransaction<'_>,
+        attr: &Attribute,
+        itype: IndexType,
+        idx_key: &str,
+    ) -> Result<Option<IDLBitRange>, OperationError> {
+        t.get_idl(attr, itype, idx_key)
+    }
+}
